@@ -76,7 +76,8 @@ def strat_spec(draw):
         nstot = total - draw(st.integers(1, nsblk - 1))
     return {"nsub": nsub, "nsblk": nsblk, "npol": layout[0], "pol_type": layout[1], "nchan": nchan, "nbits": nbits,
             "f0": draw(st.sampled_from([1400.0, 704.0, 3000.5])), "df": df, "tbin": draw(st.sampled_from([1e-3, 64e-6, 512e-6])),
-            "zero_off": draw(st.sampled_from([0.0, 7.5, 0.5])) if nbits == 4 else draw(st.sampled_from([0.0, 127.5])),
+            # ZERO_OFF as a float card or as an integer card (8, 128: what instruments that store unsigned samples write)
+            "zero_off": draw(st.sampled_from([0.0, 7.5, 0.5, 8, 3])) if nbits == 4 else draw(st.sampled_from([0.0, 127.5, 128, 100])),
             "seed": draw(st.integers(0, 2**31 - 1)), "imjd": draw(st.integers(50000, 60000)),
             "smjd": draw(st.integers(0, 86399)), "offs": draw(st.sampled_from([0.0, 0.25, 0.5])), "nstot": nstot,
             "gulps": draw(st.lists(st.integers(1, total + 3), min_size=1, max_size=4)),
